@@ -279,6 +279,40 @@ def menu_case(name):
         m = magpy.magnet.TriangularMesh.from_mesh(mesh=m0.mesh, polarization=pol)
         m2 = magpy.magnet.TriangularMesh.from_mesh(mesh=m0.mesh[::-1, [0, 2, 1]], polarization=pol)
         return [(f, cmp([m], [cub], f)) for f in "BH"] + [("B-flipped-input", cmp([m2], [cub], "B"))]
+    if name == "repaired-mesh":
+        # built without reorientation from partly inward faces, evaluated once, then repaired: every representation follows
+        bad_faces = cube_faces.copy()
+        bad_faces[[0, 3, 7]] = bad_faces[[0, 3, 7]][:, [0, 2, 1]]
+        m = magpy.magnet.TriangularMesh(vertices=corners, faces=bad_faces, polarization=pol, reorient_faces="skip")
+        m.getB(OBS)
+        _ = m.mesh
+        m.reorient_faces(mode="ignore")
+        return [(f, cmp([m], [cub], f)) for f in "BH"] + [("H-triangles", cmp([m.to_TriangleCollection()], [cub], "H")),
+                                                          ("B-copy", cmp([m.copy()], [cub], "B"))]
+    if name.startswith("small-body"):
+        # micrometre-sized bodies with coordinates that are not round numbers: converters must not snap vertices to a grid
+        sc = {"um": 2.3456789e-6, "mm": 1.23456789e-3}[name.split(":")[1]]
+        obs_s = OBS * sc
+
+        def fld(o, f):
+            return np.asarray(getattr(o, "get" + f)(obs_s)).reshape(-1, 3)
+
+        cs = magpy.magnet.Cuboid(dimension=tuple(np.array(DIM) * sc), polarization=pol)
+        m0 = magpy.magnet.TriangularMesh(vertices=corners * sc, faces=cube_faces, polarization=pol)
+        tris = [magpy.misc.Triangle(vertices=(corners * sc)[fc], polarization=pol) for fc in np.array(m0.faces)]
+        reps = {"from_mesh": magpy.magnet.TriangularMesh.from_mesh(mesh=m0.mesh, polarization=pol),
+                "from_triangles": magpy.magnet.TriangularMesh.from_triangles(triangles=tris, polarization=pol),
+                "from_triangle_collection": magpy.magnet.TriangularMesh.from_triangles(triangles=m0.to_TriangleCollection(), polarization=pol),
+                "from_ConvexHull": magpy.magnet.TriangularMesh.from_ConvexHull(points=corners * sc, polarization=pol)}
+        res = []
+        for rn, m in reps.items():
+            for f in "BH":
+                ref = fld(cs, f)
+                err = np.max(np.linalg.norm(fld(m, f) - ref, axis=1)) / np.max(np.linalg.norm(ref, axis=1))
+                res.append((f"{f}-{rn}", None if err <= RTOL else f"rel {err:.3g}"))
+            if not np.array_equal(np.sort(np.asarray(m.vertices), axis=0), np.sort(corners * sc, axis=0)):
+                res.append((f"vertices-{rn}", "stored vertices differ from the input coordinates"))
+        return res
     if name.startswith("two-boxes=disconnected-mesh"):
         # one TriangularMesh made of two disjoint boxes; variants: face list interleaved, some faces of either part flipped
         b1 = magpy.magnet.Cuboid(dimension=DIM, polarization=pol)
@@ -347,7 +381,7 @@ def menu_case(name):
     raise AssertionError(name)
 
 
-MENU = ["cuboid=mesh", "cuboid=convexhull", "cuboid=5tets", "cuboid=6tets", "cuboid=triangles(H)", "to_TriangleCollection",
+MENU = ["repaired-mesh", "small-body:um", "small-body:mm", "cuboid=mesh", "cuboid=convexhull", "cuboid=5tets", "cuboid=6tets", "cuboid=triangles(H)", "to_TriangleCollection",
         "from_triangles", "from_mesh", "mesh-with-path", "two-boxes=disconnected-mesh:plain", "two-boxes=disconnected-mesh:flipB0",
         "two-boxes=disconnected-mesh:flipA-all", "two-boxes=disconnected-mesh:flipB-all", "two-boxes=disconnected-mesh:interleaved-flips", "cylinder=segment(0,360)", "cylinder=segment(-180,180)",
         "cylinder=segment(90,450)", "cylinder=segment(-360,0)", "cylinder=segment(-500,-140)", "hollow=difference", "sectors:pos",
